@@ -6,7 +6,7 @@
    Only statements closed by `exact`. *)
 From Coq Require Import List.
 From AQ Require Import Feed.FeedLTS Feed.FeedProofs Feed.FeedInvA Feed.FeedInvB Feed.FeedExact Feed.FeedOrder Feed.FeedRecv Feed.FeedStuck Feed.FeedBlocked.
-From AQ Require Import Feed.MuxLTS Feed.MuxProofs Feed.MuxExact Feed.MuxPath.
+From AQ Require Import Feed.MuxLTS Feed.MuxProofs Feed.MuxExact Feed.MuxPath Feed.MuxClosed Feed.PostMuLTS Feed.PostMuProofs.
 From AQ Require Import Feed.DupLTS Feed.DupProofs Feed.DupDeliver Feed.DupPath.
 From AQ Require Import Feed.ScopeLTS Feed.ScopeProofs.
 Import ListNotations.
@@ -290,3 +290,65 @@ Example C19_mux_example :
     /\ ppcs st 1 = PDone /\ snap st 1 = [1; 2; 3] /\ heap st 2 = [1; 2; 3] /\ subm st 0 = Some (3, 2) /\ heap st 3 = [2; 3]
     /\ mlog st = [(1, 3); (1, 2)] /\ sstat st 2 = UCreated /\ created st 2 <= ptime st 1.
 Proof. eexists. vm_compute. repeat split; try reflexivity. auto. Qed.
+
+(* ---------------------------------------------------------------- Post racing Stop and Unsubscribe *)
+
+(* Post returns ErrMuxClosed (pc PErr) exactly when it observed the mux stopped at its read point (the RLock section):
+   the error outcome comes only from a stopped mux, is final and carries no delivery; at the read point the branch is
+   decided by mux.stopped alone; a Post that took a snapshot never returns the error; mux.stopped is permanent *)
+Theorem C19_mux_post_closed_iff_stopped : forall st p, mreachable st ->
+  (ppcs st p = PErr -> stopped st = true /\ (forall s, mcount p s (mlog st) = 0) /\
+                      (forall l st', mstep st l = Some st' -> ppcs st' p = PErr)) /\
+  (mpanic st = false -> ppcs st p = PCalled -> wlock st = false ->
+     (stopped st = true  -> mstep st (MPostStopped p) <> None /\ mstep st (MPostSnap p) = None) /\
+     (stopped st = false -> mstep st (MPostSnap p) <> None /\ mstep st (MPostStopped p) = None)) /\
+  (forall a len i, ppcs st p = PIter a len i \/ ppcs st p = PDone -> ppcs st p <> PErr) /\
+  (stopped st = true -> forall l st', mstep st l = Some st' -> stopped st' = true).
+Proof. exact mux_post_closed_iff_stopped. Qed.
+Print Assumptions C19_mux_post_closed_iff_stopped.
+
+(* each delivery step of a Post that observed the mux running: the current element of its snapshot is delivered to if
+   it is open and was created before the Post; it is never sent to once its postC is closed; nobody else is touched
+   (with C19_mux_snapshot_is_subm and C19_mux_exactly_once: exactly the subscribers of the type present at the read
+   point that are not closed before their delivery step) *)
+Theorem C19_mux_delivery_step_determined : forall st p a len i s, mpanic st = false -> cur st p = Some (a, len, i, s) ->
+  (sstat st s = UCreated -> created st s <= ptime st p ->
+     mstep st (MDeliverSent p s) <> None /\ mstep st (MDeliverClosed p s) = None /\ mstep st (MDeliverStale p s) = None) /\
+  (sstat st s = UClosed -> mstep st (MDeliverSent p s) = None /\ mstep st (MDeliverClosed p s) <> None) /\
+  (forall s', s' <> s -> mstep st (MDeliverSent p s') = None /\ mstep st (MDeliverClosed p s') = None /\ mstep st (MDeliverStale p s') = None).
+Proof. exact mux_delivery_step_determined. Qed.
+Print Assumptions C19_mux_delivery_step_determined.
+
+(* Subscribe after Stop: nothing is added to mux.subm and the subscription comes back closed *)
+Theorem C19_mux_subscribe_after_stop : forall st, mreachable st -> stopped st = true ->
+  (forall s t, mstep st (MSubAdd s t) = None) /\
+  (forall s st', mstep st (MSubStopped s) = Some st' -> sstat st' s = UClosed) /\
+  (forall s, mpanic st = false -> wlock st = false -> sstat st s = UCreated -> mstep st (MSubStopped s) <> None).
+Proof. exact mux_subscribe_after_stop. Qed.
+Print Assumptions C19_mux_subscribe_after_stop.
+
+(* the closewait / deliver protocol of one subscription (Feed/PostMuLTS.v: postMu as a reader/writer lock, closing, postC;
+   p_bad = a send completed on the closed channel, Go's "send on closed channel" panic): no interleaving sends on a
+   closed channel ... *)
+Theorem C19_postmu_no_send_on_closed : forall st, preachable st ->
+  p_bad st = false /\ (forall st', pstep st PSent = Some st' -> p_closed st = false /\ p_bad st' = false).
+Proof. exact postmu_no_send_on_closed. Qed.
+Print Assumptions C19_postmu_no_send_on_closed.
+
+(* ... and nobody blocks forever because of a concurrent Unsubscribe / Stop: once closing is closed every deliver holding
+   the read lock can leave through `case <-s.closing`, and when none is left closewait's postMu.Lock() is granted *)
+Theorem C19_postmu_no_block : forall st, preachable st -> p_closing st = true ->
+  (0 < p_ro st + p_rn st -> pstep st PClosedCase <> None) /\
+  (p_ro st + p_rn st = 0 -> p_closed st = false -> pstep st PClose <> None).
+Proof. exact postmu_no_block. Qed.
+Print Assumptions C19_postmu_no_block.
+
+(* non-vacuity: a Post racing Stop gets ErrMuxClosed and delivers nothing; a deliver blocked on an unread subscriber is
+   released by closewait, which then closes the channel; a later deliver sees nil and leaves through closing *)
+Example C19_mux_closed_example :
+  (exists st, mrun minit [MSubNew 1; MSubAdd 1 0; MPostCall 1 0; MStopBegin; MClosing 1; MPostcClose 1; MStopEnd; MPostStopped 1;
+                          MSubNew 2; MSubStopped 2] = Some st
+     /\ ppcs st 1 = PErr /\ stopped st = true /\ mlog st = [] /\ sstat st 2 = UClosed) /\
+  (exists st, prun pinit [PBegin; PClosing; PClosedCase; PClose; PBegin; PClosedCase] = Some st /\ p_closed st = true /\ p_bad st = false) /\
+  prun pinit [PBegin; PClosing; PClose] = None.
+Proof. split; [|split]; try (eexists; vm_compute; repeat split; reflexivity); reflexivity. Qed.
